@@ -30,7 +30,7 @@ def generate(tier, seed):
     for name in sources.SMALL + sources.MULTICONF:
         for e in ("records", "ignorable", "protonate-all"):
             cases.append({"kind": "file", "file": name, "edit": e, "seed": "%d:%s:%s" % (seed, name, e), "cost": 4})
-    n = 600 if tier == "quick" else 5000
+    n = 600 if tier == "quick" else 25000
     for k in range(n):
         cases.append({"kind": "cutout", "edit": EDITS[k % len(EDITS)], "seed": "%d:cut:%d" % (seed, k), "cost": 15})
     return cases
